@@ -51,6 +51,12 @@ func (c *EventCache) Add(event *Event) (added bool) {
 	defer c.mu.Unlock()
 
 	eventKey := c.getEventKey(event)
+	if eventKey == "" {
+		// Ephemeral events and addressable events without a d tag have no
+		// key: they are accepted but never stored, so that they are neither
+		// served later nor collide with each other under the empty key.
+		return true
+	}
 
 	if c.isDeleted(eventKey, event.Pubkey) {
 		return false
